@@ -25,6 +25,8 @@ DEQ_OPS = {
     'crossbeam_channel::channel::Receiver::recv': 'blocking',
     '<crossbeam_channel::channel::Iter as core::iter::traits::iterator::Iterator>::next': 'blocking',
     'crossbeam_channel::channel::Receiver::try_recv': 'nonblocking',
+    'crossbeam_channel::channel::Receiver::recv_timeout': 'timed',
+    'crossbeam_channel::channel::Receiver::recv_deadline': 'timed',
 }
 RECV_BENIGN = ('crossbeam_channel::channel::Receiver::is_empty', 'crossbeam_channel::channel::Receiver::len',
                'crossbeam_channel::channel::Receiver::iter', 'crossbeam_channel::channel::Receiver::is_full',
@@ -141,8 +143,13 @@ class QModel:
             return
         self.run, self.stop, self.submit, self.spawn, self.build = (
             self.run[0], self.stop[0], self.submit[0], self.spawn[0], self.build[0])
-        sc = cad.closures_of(self.spawn.path)
-        bc = cad.closures_of(self.build.path)
+        sc = self._closure_args(self.spawn, lambda t: callee_is(t, 'std::thread::spawn', 'std::thread::Builder::spawn', 'std::thread::Builder::spawn_scoped'))
+        if len(sc) != 1:
+            sc = cad.closures_of(self.spawn.path)
+        wnew = [x.path for x in names(cad).constructors(self.worker)]
+        bc = self._closure_args(self.build, lambda t: t.get('resolved') in wnew)
+        if len(bc) != 1:
+            bc = cad.closures_of(self.build.path)
         if len(sc) != 1 or len(bc) != 1:
             rep.anchor_lost('Q0', 'spawn closure / task closure (%d/%d)' % (len(sc), len(bc)))
             return
@@ -177,6 +184,19 @@ class QModel:
                   self.sentinel_drop):
             rep.analysed(b)
         self.ok = True
+
+    def _closure_args(self, body, is_call):
+        """closure literals handed as an argument to the calls selected by is_call (the role, not the count of closures)"""
+        T = Terms(body)
+        out = []
+        for bi, t in body.calls():
+            if body.blocks[bi]['cleanup'] or not is_call(t):
+                continue
+            for a in norm(T.call_term(bi))[2]:
+                for y in walk(a):
+                    if y[0] == 'closure' and y[1] in self.cad.bodies and self.cad.bodies[y[1]] not in out:
+                        out.append(self.cad.bodies[y[1]])
+        return out
 
     def _getter_field(self, name):
         """QueuingMetricSink::<name>() -> ... -> Atomic::load(&stats.<field>) : return <field>."""
